@@ -154,6 +154,11 @@ def analyse(facts, tier):
                     continue
                 if short(callee_name(x) or '') in ('allocate_slot', 'ensure_allocate_slot', 'reserve', 'bucket_add'):
                     hit = short(callee_name(x))
+                elif 'callee' in x and callee_name(x):
+                    # the common tail of the two overloads as a private helper: its call is the linking step
+                    for cf in facts.fns.get(callee_name(x), [])[:1]:
+                        if is_local_helper(fn, cf) and any(short(callee_name(y) or '') == 'bucket_add' for y in calls_in(cf.tree)):
+                            hit = 'bucket_add'
                 if is_incdec(x) and short(strip(x['e']).get('n', '')) == 'm_size':
                     hit = '++m_size'
             if hit:
